@@ -13,7 +13,7 @@ from checks import phys, c03, c18
 from refs import reference as ref
 
 ID = 'C17'
-BUDGET = {'quick': 1500, 'thorough': 80000}
+BUDGET = {'quick': 1000, 'thorough': 80000}
 WALL = {'quick': 150, 'thorough': 3000}
 CHUNK = 8
 DET_K = 4
